@@ -223,6 +223,18 @@ class Family(object):
         sim = [self._keep('sim', np.array([[[1.1 + 0.1 * k, 2.1]], [[0.8, 1.7 + 0.1 * k]], [[1.4, 2.6]]])) for k in range(3)]
         calls += [('F.loglik', lambda k: self.F.compute_log_likelihood(sim[k])),
                   ('F.sens', lambda k: self.F.compute_sensitivities(sim[k]))]
+        # filter posterior over the user's mechanistic model (simulated individuals are parameters of the posterior)
+        n_out = ll0['n_out']
+        f_obs = self._keep('filter posterior obs', np.array(
+            [[[0.8 + 0.3 * i + 0.2 * o + 0.1 * t for t in range(3)] for o in range(n_out)] for i in range(4)]))
+        f_times = self._keep('filter posterior times', np.array([0.5, 1.0, 2.0]))
+        self.FP = chi.PopulationFilterLogPosterior(
+            population_filter=chi.GaussianFilter(f_obs), times=f_times, mechanistic_model=self.M,
+            population_model=chi.GaussianModel(n_dim=n_par),
+            log_prior=llbuild.build_prior([dict(kind='lognormal', a=0.0, b=1.0)] * (2 * n_par + n_out)), n_samples=3)
+        n_fp = self.FP.n_parameters()
+        self.fpx = [self._keep('fpx', np.linspace(0.6, 1.4, n_fp) * (1 + 0.05 * k)) for k in range(3)]
+        calls += [('FP.call', lambda k: self.FP(self.fpx[k])), ('FP.S1', lambda k: self.FP.evaluateS1(self.fpx[k]))]
         self.calls = calls
 
     def _pkpd(self, chi):
@@ -389,6 +401,8 @@ def check(case):
             targets = [('L1', fam.L1, twin.L1, s['ll_args'][0]), ('P1', fam.P1, twin.P1, s['ll_args'][0])]
             if hasattr(fam, 'HP') and not mutated:
                 targets.append(('HP', fam.HP, twin.HP, s['hvecs'][0]))
+            if not mutated:
+                targets.append(('FP', fam.FP, twin.FP, fam.fpx[0]))
         else:
             targets = [('L1', fam.L1, twin.L1, s['args'][0]), ('P1', fam.P1, twin.P1, s['args'][0])]
         for label, obj, tw, x0 in targets:
@@ -401,6 +415,8 @@ def check(case):
                 sc2, g2 = tw.evaluateS1(buf.copy())
                 case.close(sc, sc2, rtol=1e-12, what='%s.evaluateS1 score after %d in-place updates' % (label, rnd))
                 case.close(g, g2, rtol=1e-12, what='%s.evaluateS1 gradient after %d in-place updates' % (label, rnd))
+                if isinstance(g, np.ndarray):
+                    returned.append(('%s.evaluateS1(buffer), round %d' % (label, rnd), [g], [g.copy()]))
                 buf[j] *= 1.013          # in place: the same array object is passed again
 
     with case.clause('returned_results_stable'):
